@@ -268,6 +268,28 @@ impl Read for Source {
                 // Do not consume the terminal event during BufReader construction.
                 return Ok(0);
             }
+            // The schedule applies to the terminal result too: interruptions that are due come
+            // first (a signal may arrive while the source waits for the end of input).
+            match self.sched.steps[self.step % self.sched.steps.len()] {
+                Step::Intr => {
+                    self.step += 1;
+                    log.interrupts += 1;
+                    return Err(io::Error::new(io::ErrorKind::Interrupted, "interrupted"));
+                }
+                Step::IntrBurst(n) if n > 0 => {
+                    if self.burst_left == 0 {
+                        let round = self.step / self.sched.steps.len();
+                        self.burst_left = if round < 4 { n as u32 } else { 1 };
+                    }
+                    self.burst_left -= 1;
+                    if self.burst_left == 0 {
+                        self.step += 1;
+                    }
+                    log.interrupts += 1;
+                    return Err(io::Error::new(io::ErrorKind::Interrupted, "interrupted"));
+                }
+                _ => {}
+            }
             log.terminal_returned = true;
             return match self.sched.fail_at {
                 Some((_, kind)) => {
@@ -344,6 +366,8 @@ pub enum Ctor {
     Boxed,
     /// `from_buf_reader` on a `BufReader` of this capacity whose buffer has been filled.
     BufReader(usize),
+    /// `from_buf_reader` on a new `BufReader` of this capacity that has not read anything yet.
+    FreshBufReader(usize),
 }
 
 impl Ctor {
@@ -352,6 +376,7 @@ impl Ctor {
             Ctor::FromRead => "from_read",
             Ctor::Boxed => "from_boxed_dyn_read",
             Ctor::BufReader(_) => "from_buf_reader",
+            Ctor::FreshBufReader(_) => "from_buf_reader(fresh)",
         }
     }
 }
@@ -431,6 +456,7 @@ pub fn build_init(
             *prefill.borrow_mut() = false;
             Init::Buf(br)
         }
+        Ctor::FreshBufReader(cap) => Init::Buf(BufReader::with_capacity(cap, src)),
     };
     (init, log)
 }
@@ -468,6 +494,7 @@ pub fn build_reader_consumed(
             br.consume(skipped);
             DeferredReader::from_buf_reader(br)
         }
+        Ctor::FreshBufReader(cap) => DeferredReader::from_buf_reader(BufReader::with_capacity(cap, src)),
     };
     if let Some(c) = feed.chunk {
         reader.set_chunk_size(c.max(1));
@@ -525,6 +552,7 @@ pub fn ctor_strategy() -> impl Strategy<Value = Ctor> {
         2 => Just(Ctor::Boxed),
         3 => (1usize..=64).prop_map(Ctor::BufReader),
         1 => Just(Ctor::BufReader(0)),
+        1 => prop_oneof![1usize..=64, Just(8192usize)].prop_map(Ctor::FreshBufReader),
         // std's default capacity, the reader's default chunk size and beyond (only matters for
         // documents of that size: the large-document oracles)
         1 => proptest::sample::select(vec![8192usize, 16384, 16385, 40000, 65536]).prop_map(Ctor::BufReader),
